@@ -389,3 +389,9 @@ def run(chk: Check):
     from .c08 import rule_l1
     rule_l1(chk, ix)   # $NAME keys and words are token texts: a token's text is the source slice
     chk.floor("H2-placement", 7)
+    # necessary conditions that live under other properties' rule ids
+    from .firstpass import rule_first_pass_raisers
+    rule_first_pass_raisers(chk, ir)          # a first-pass raise in a Python rule pre-empts the xonsh alternatives after it
+    from .c04 import rule_s3_recursion
+    from ..pyflow import Index as _Ix5
+    rule_s3_recursion(chk, _Ix5())             # binding-target forms of $X / ${..} rest on set_expr_context touching containers only
